@@ -433,6 +433,14 @@ func checkGenX(c genCase, exclude bool) error {
 		if err := proto.Unmarshal(o.raw, vr); err != nil {
 			return fmt.Errorf("%s: response does not parse: %v", what, err)
 		}
+		if base.Error != nil {
+			// an error response has no files; its text names the first offending file in generation
+			// order, which legitimately follows the requested order
+			if vr.Error == nil {
+				return fmt.Errorf("%s: generation succeeds but the original request gets the error %.200q", what, base.GetError())
+			}
+			return nil
+		}
 		if d := describeRespDiff(base, vr, false); d != "" {
 			if exclude && isHybridPublicImport(c, protoFiles, toGen, base, vr) && pbt.ExcludeKnown(kfHybridPublic) {
 				return nil
